@@ -338,10 +338,9 @@ def canon(toks):
         if kind == "word":
             if val in KEYWORDS_DROPPED:
                 continue
-            if val == "elif":
-                out.append(("word", "elif"))
-                continue
-            out.append(("lit", val) if val not in A.KEYWORDS or val == "not" else ("word", val))
+            # keywords may also be object keys / path keys (`{or: 1}`, `.if`), where the re-rendered
+            # tree spells them as strings: names and keywords are compared as the same kind of token
+            out.append(("lit", val))
             continue
         if kind == "dotword":
             out.append(("lit", val[1:]))
